@@ -118,6 +118,8 @@ func runC09(c *Ctx, r *Report) {
 	r.Doc("R-C09.9", "loaders and constructors examine every error result (manifest read, manifest decode, codec construction) before going on")
 	r.Doc("R-C09.18", "a loader hands on what the fetcher delivered (adopted from C10: a filter between the walk and the log — entries whose log id is not the manifest's — silently returns a truncated log for one that was loaded under a new id and continued)")
 	importRules(c, r, "C10", []string{"R-C10.13"}, "R-C09.18")
+	r.Doc("R-C09.19", "the constructor indexes every predecessor link of every given entry, whether or not the heads were handed in (adopted from C02: the manifest loader hands heads in — with the index built only beside the head search its log keeps a stale head after the next merge, and a rebuild from its state differs between the loaders)")
+	importRules(c, r, "C02", []string{"R-C02.4"}, "R-C09.19")
 	r.Doc("R-C09.10", "the loops that publish the heads, select the loaded heads and queue links process every element")
 	loopsComplete(c, r, "R-C09.10", func(fn *Fn) bool {
 		return rootNamed(fn, "ToJSONLog", "entrySliceToCids", "fromMultihash", "fromEntryHash", "fromJSON", "fromEntry", "NewFromMultihash", "addHashesToQueue", "addNextEntry", "NewOrderedMapFromEntries")
